@@ -174,5 +174,9 @@ def exctab_entries(draw):
         ln = draw(st.sampled_from([1, 1, 2, 5, 63, 64, 65, 300, 4096]))
         t = draw(st.sampled_from(VARINT_EDGES + [7]))
         depth = draw(st.sampled_from([0, 1, 2, 31, 32, 33, 2048]))
-        out.append([s, ln, t, depth, draw(st.booleans())])
+        lasti = draw(st.booleans())
+        out.append([s, ln, t, depth, lasti])
+        if draw(st.sampled_from([False, False, True])):
+            # a second range that starts where this one ends, with the same handler (two entries, not one)
+            out.append([s + ln, draw(st.sampled_from([1, 2, 5])), t, depth, lasti])
     return out
